@@ -121,6 +121,14 @@ func (a *Analysis) CheckC12(rep *Report) {
 			}
 			rep.Ob("T3-key-decoded-before-lookup", key, keyIdx >= 0 && keyIdx < i, dpos, "the lookup key is not a field decoded earlier in the same call")
 			rep.Ob("T3-result-stored-and-decoded", key, fd.GoField >= 0, dpos, "the object decoded into is not the one stored in the message's dynamic field")
+			for _, pl := range tl.R.Dec {
+				okp := i < len(pl.Layout.Fields) && pl.Layout.Fields[i].Kind == "dyn" && pl.Layout.Fields[i].Table == fd.Table && pl.Layout.Fields[i].Key == fd.Key
+				note := ""
+				if i < len(pl.Layout.Fields) {
+					note = pl.Layout.Fields[i].Note
+				}
+				rep.Ob("T3-every-decode-path-uses-the-table", key+"["+pl.Conds+"]", okp, dpos, "on this decode path the body/extension is not built from the table by the key just read: "+note)
+			}
 			// T4 encode arms
 			for _, pl := range tl.R.Enc {
 				if pl.BodyNil {
